@@ -1,25 +1,44 @@
 /-
   PROPERTY C14 -- phasor (AC) results equal the transfer function on the jω axis.
-  In the model, AC analysis at angular frequency ω IS the Laplace-domain analysis at the point
-  s = j·ω (Lcapy/Model/Netlist.lean `Analysis.ac`); the tie to the code's separate phasor path
-  (kind = ω, impedances from `Y.sympy` in the phasor domain) is the correspondence check.
+
+  Where the content is:
+   * Props/C14SS.lean   `steady_state_iff_phasor`, `phasor_solution_is_steady_state`, `mna_phasor_is_steady_state`:
+                        for every netlist, source phasors (a − j b of a·cos ωt + b·sin ωt; A·e^{jφ} of A·cos(ωt+φ):
+                        `polar_phasor`) + the Laplace-domain laws at s = jω  ⇔  the time-domain laws of the
+                        sinusoidal steady state; several frequencies (`multi_frequency_iff`); ω = 0 (`ac_at_zero_is_dc`)
+   * this file          `phasor_is_transfer_times_source`: output phasor = H(jω) · source phasor, with H the transfer
+                        function that the C04 experiment `transferExp` MEASURES at s = jω (unit test source, everything
+                        else killed); `same_freq_sum`: sources of one frequency add as complex numbers
+   * Props/C14Conv.lean the conversions of lcapy/phasor.py / lcapy/acdc.py on the definitions the driver executes
+                        (`TDS.toPh`, `TDS.toTime`, the GENERATED `Gen.AC.timeForm`, `sumBranches`, …):
+                        `time_roundtrip`, `phasor_roundtrip`, `time_form_sound`, `acchecker_sum_sound`, `term_phasor_sound`
+   * Props/C14Imm.lean  immittance of every one-port tree at jω
+
+  REMARKS (definitional, not claims): in the executable model, AC analysis at angular frequency ω IS the Laplace-domain
+  stamping at the point s = j·ω (Model/Netlist.lean `Analysis.ac`), so `ac_is_s_at_jw` and `impedance_at_jw` hold by `rfl`;
+  that the CODE's separate phasor path (kind = ω, immittances from `Y.sympy` in the phasor domain) agrees with this is what the
+  correspondence check establishes on every run.
 -/
 import Lcapy.Props.C03
 import Lcapy.Model.Netlist
+import Lcapy.Props.C04Ground
+import Lcapy.Proofs.PortOps
 namespace Lcapy.C14
 open Lcapy.MNA Ix
 variable {K : Type} [Field K]
+set_option linter.unusedSectionVars false
+set_option linter.unnecessarySeqFocus false
 
-/-- **impedance_at_jw**: the element stamps used for AC analysis are the s-domain stamps at s = jω -/
+/-- REMARK (rfl): the element stamps the model uses for AC analysis are the s-domain stamps at s = jω -/
 theorem ac_is_s_at_jw (w : GQ) (c : Cpt GQ) :
     stamp (Netlist.Analysis.ac w).kind (Netlist.Analysis.ac w).s c = stamp Kind.lap (GQ.j * w) c := rfl
 
+/-- REMARK (rfl): jωC and jωL -/
 theorem impedance_at_jw (j ω c l : K) :
     capY Kind.lap (j * ω) c = j * ω * c ∧ indZ Kind.lap (j * ω) l = j * ω * l := ⟨rfl, rfl⟩
 
-/-- **phasor_is_transfer**: if `xu` is the response at s = jω to unit excitation (so its
-    entries are the transfer functions H(jω) from the source to every voltage and current), the
-    response to a source phasor P is P·H(jω), for every netlist. -/
+/-- homogeneity (an instance of `C03.scaling`): scaling every source phasor by P scales every phasor of the solution by P.
+    (Kept under its round-1 name; the statement about a transfer function is `phasor_is_transfer_times_source`.) -/
 theorem phasor_is_transfer (j ω P : K) (cs : List (Cpt K)) (xu : Ix → K)
     (h : Solves .lap (j * ω) cs xu) :
     Solves .lap (j * ω) (cs.map (Cpt.mapSrc (fun v => P * v))) (fun i => P * xu i) :=
@@ -32,35 +51,47 @@ theorem same_freq_sum (j ω : K) (cs cs' : List (Cpt K)) (x y : Ix → K)
     Solves .lap (j * ω) (List.zipWith Cpt.addSrc cs cs') (fun i => x i + y i) :=
   C03.superposition .lap (j * ω) cs cs' x y hs hx hy
 
-/-! ### sinusoid ↔ phasor (lcapy/phasor.py): a·cos(ωt) + b·sin(ωt)  ↔  a − j·b -/
+/-! ### output phasor = H(jω) · source phasor -/
 
-/-- (cos coefficient, sin coefficient) ↦ (re, im) -/
-def toPhasor (ab : K × K) : K × K := (ab.1, -ab.2)
-/-- (re, im) ↦ (cos coefficient, sin coefficient): Re((re + j·im)(cos ωt + j sin ωt)) -/
-def toTime (p : K × K) : K × K := (p.1, -p.2)
+theorem wf_mapSrc (f : K → K) (cs : List (Cpt K)) (h : C01.WF cs) : C01.WF (cs.map (Cpt.mapSrc f)) := by
+  simp only [C01.WF, List.flatMap_map, owned_mapSrc] at h ⊢
+  exact h
 
-/-- value of the sinusoid at an instant where cos(ωt) = C and sin(ωt) = S -/
-def semTime (C S : K) (ab : K × K) : K := ab.1 * C + ab.2 * S
-/-- Re(P·e^{jωt}) -/
-def semPhasor (C S : K) (p : K × K) : K := p.1 * C - p.2 * S
+/-- **phasor_is_transfer_times_source**: let H be the voltage transfer function of the netlist from the port (p1, m1)
+    to the port (p2, m2) at the point s (s = jω in `Cx R`, see `phasor_is_transfer_at_jw`) — i.e. what the C04 experiment
+    `transferExp` MEASURES there: sources and initial conditions killed, UNIT test source across the input pair,
+    V(p2) − V(m2) read, in every solution.  Then in EVERY solution of the same circuit whose input source carries the
+    phasor P, the output phasor is H·P. -/
+theorem phasor_is_transfer_times_source (s : K) (cs : List (Cpt K)) (p1 m1 p2 m2 b : Nat) (H P : K) (hP : P ≠ 0)
+    (hwf : C01.WF (transferExp cs p1 m1 p2 m2 b).ckt)
+    (hH : C04.Measures .lap s (transferExp cs p1 m1 p2 m2 b) H)
+    (z : Ix → K)
+    (hz : Laws .lap s ((transferExp cs p1 m1 p2 m2 b).ckt.map (Cpt.mapSrc (fun v => P * v))) z) :
+    vd z p2 m2 = H * P := by
+  obtain ⟨_, hall⟩ := hH
+  have hz' := (C01.mna_iff_laws .lap s _ z (wf_mapSrc _ _ hwf)).mpr hz
+  have hs := C03.scaling .lap s (1 / P) _ z hz'
+  have e : ((transferExp cs p1 m1 p2 m2 b).ckt.map (Cpt.mapSrc (fun v => P * v))).map (Cpt.mapSrc (fun v => 1 / P * v)) =
+      (transferExp cs p1 m1 p2 m2 b).ckt := by
+    rw [List.map_map]
+    conv_rhs => rw [← List.map_id (transferExp cs p1 m1 p2 m2 b).ckt]
+    apply List.map_congr_left
+    intro c _
+    simp only [Function.comp, mapSrc_comp, id]
+    have : ((fun v => 1 / P * v) ∘ fun v => P * v) = fun v : K => v := by
+      funext v; simp only [Function.comp]; field_simp
+    rw [this, mapSrc_id]
+  rw [e] at hs
+  have hl := (C01.mna_iff_laws .lap s _ _ hwf).mp hs
+  have := hall _ hl
+  simp only [transferExp, Obs.read, vd_smul] at this
+  rw [← this]; field_simp
 
-theorem phasor_time_roundtrip (ab : K × K) : toTime (toPhasor ab) = ab := by
-  simp [toTime, toPhasor]
-
-theorem time_phasor_roundtrip (p : K × K) : toPhasor (toTime p) = p := by
-  simp [toTime, toPhasor]
-
-/-- the reconstructed time signal is the sinusoid the phasor stands for -/
-theorem phasor_sem (C S : K) (ab : K × K) : semPhasor C S (toPhasor ab) = semTime C S ab := by
-  simp [semPhasor, semTime, toPhasor]
-
-/-- sin/cos conventions: cos ↦ 1, sin ↦ −j -/
-example : toPhasor ((1 : ℚ), 0) = (1, 0) ∧ toPhasor ((0 : ℚ), 1) = (0, -1) := by
-  simp [toPhasor]
-
-/-- sinusoids of one frequency add as phasors -/
-theorem phasor_add (ab cd : K × K) :
-    toPhasor (ab.1 + cd.1, ab.2 + cd.2) = ((toPhasor ab).1 + (toPhasor cd).1, (toPhasor ab).2 + (toPhasor cd).2) := by
-  simp [toPhasor]; ring
+/-- the driven circuit of `phasor_is_transfer_times_source` spelled out: the killed netlist with the source `V p1 m1`
+    of phasor P (and nothing else alive) -/
+theorem driven_circuit (cs : List (Cpt K)) (p1 m1 p2 m2 b : Nat) (P : K) :
+    (transferExp cs p1 m1 p2 m2 b).ckt.map (Cpt.mapSrc (fun v => P * v)) =
+      killAll (cs.filter (fun c => !c.isVAcross p1 m1)) ++ [.V p1 m1 b P] := by
+  simp [transferExp, vProbe, List.map_append, killAll_scale, Cpt.mapSrc]
 
 end Lcapy.C14
